@@ -28,6 +28,6 @@ AccountingExact == Set => LET r == Read(Ty, doc) IN r.missing = Missing(Ty, doc,
 \* defaulted and optional fields are never reported
 OnlyRequiredReported == Set => \A p \in Missing(Ty, doc, <<>>) : p[Len(p)].idx = 0
 SetSeq(S) == SetToSeq(S)
-Export == Set => PrintT(ToJson([schema |-> base.s, av |-> doc, canon |-> Canon(Ty, doc), json |-> JsonTree(doc), jsonNulled |-> JsonTree(mdoc), ror2 |-> EncRor2(JsonTree(doc)),
+Export == Set => PrintT(ToJson([schema |-> base.s, av |-> doc, canon |-> Canon(Ty, doc), json |-> JsonTree(doc), jsonNulled |-> JsonTree(mdoc), ror2 |-> EncRor2(JsonTree(doc)), ror2u |-> EncRor2(WithUnknown(JsonTree(doc))),
                                  missing |-> SetSeq(Missing(Ty, doc, <<>>))]))
 =============================================================================
